@@ -192,6 +192,39 @@ Section S.
     Qed.
   End Ratio.
 
+  (* ... and never negative *)
+  Section RatioNonneg.
+    Hypothesis Hnn : forall (x : T) (i r : N),
+      nleb n0 x = true -> nleb n0 (nmin (nmul x (ndiv (ofN NN i) (nadd (ofN NN r) n1))) n1) = true.
+    Hypothesis Hone0 : nleb (n0 : T) n1 = true.
+
+    Definition ratio_nn (st : ost) : Prop := nleb n0 (ratio st) = true.
+
+    Lemma end_loop_ratio_nn c st : ratio_nn st -> ratio_nn (end_loop c st).
+    Proof.
+      unfold ratio_nn, Optimiser.end_loop. intros H.
+      destruct (andb _ _); cbn [ratio]; [exact H|].
+      destruct (nltb _ _); [now apply Hnn | exact H].
+    Qed.
+
+    Lemma advance_ratio_nn c st d : ratio_nn st -> ratio_nn (advance c st d).
+    Proof.
+      intros H. destruct (fin st) eqn:Hfin; [now rewrite C06_fin_frozen|].
+      destruct (mc_step_keeps c st d) as (_ & Hr & _).
+      destruct (advance_cases NN fexp score c st d Hfin) as [-> | (-> & _ & _)].
+      - unfold ratio_nn. now rewrite Hr.
+      - apply end_loop_ratio_nn. unfold ratio_nn. now rewrite Hr.
+    Qed.
+
+    Theorem C19_ratio_nonneg c ps hs s0 draws :
+      nleb n0 (ratio (run c (init c ps hs s0) draws)) = true.
+    Proof.
+      apply (run_invariant NN fexp score ratio_nn c).
+      - intros st d. apply advance_ratio_nn.
+      - exact Hone0.
+    Qed.
+  End RatioNonneg.
+
   (* the step of a proposal is exactly max_step * ratio (by definition of proposal), and the
      proposal replaces the one cell of the drawn handle by the clamped sample *)
   Theorem C19_proposal_shape c st d h :
